@@ -51,6 +51,23 @@ Theorem C19_find_chain_terminates : forall pool pub, find_chain true pool pub <>
 Proof. exact find_chain_fixed. Qed.
 Print Assumptions C19_find_chain_terminates.
 
+(** what the model's fuel means for the PINNED chain building: with fuel
+    [S (length pool)] it is exhausted exactly when the recursion of the Go code
+    never returns ([walk]: the big-step relation of buildChain) *)
+Theorem C19_pinned_exhaustion_is_divergence : forall pool leaf,
+  In leaf pool ->
+  (build_chain false (S (length pool)) pool [] leaf = None <-> ~ exists tr, walk pool [] leaf tr).
+Proof. exact pinned_exhaustion_is_divergence. Qed.
+Print Assumptions C19_pinned_exhaustion_is_divergence.
+
+(** the root of C19-F1: createKeyStore returns an empty store without error
+    exactly for files consisting of well-formed certificates only (the empty
+    file, a file whose only block is cut off, …) — and never once repaired *)
+Theorem C19_empty_store_iff : forall f ok bl,
+  create_key_store f ok bl = Ok [] <-> (fx1 f = false /\ forallb is_cert_block bl = true).
+Proof. exact empty_store_iff. Qed.
+Print Assumptions C19_empty_store_iff.
+
 Theorem C19_F1_pinned_refuted : exists c i, guard_F1 c no_fixes i = true /\ ~ spec_reload_ok st0 (on_changed c no_fixes st0 i).
 Proof. exact F1_refuted. Qed.
 Print Assumptions C19_F1_pinned_refuted.
